@@ -1,5 +1,6 @@
 """C11: re-configuring a live context is equivalent to creating a new one."""
 import obl_assembly as A
+import obl_context
 
 
 def run(c):
@@ -8,6 +9,7 @@ def run(c):
     if A.validate_assembly_concrete(c):
         ct = A.conv_table_for([])
         A.obl_reload(c, ct, thorough=(c.tier == "thorough"), budget_s=1200)
-    c.outside("equivalence of all later events for arbitrary pairs of layouts needs constructor determinism (file I/O of Method::new / Data::new), "
-              "which is outside a bounded input-output query; the context-level switch (layout_changed -> new method object, else update_engine, "
-              "config replaced) is read from context.rs and exercised natively by the replay driver only")
+    obl_context.obl_context(c, thorough=(c.tier == "thorough"), budget_s=600)
+    c.assume("context layer: a method object made by the constructor for a configuration, or told to refresh with it (update_engine), stands for "
+             "'what a new context would have'; that the phonetic refresh really brings the object up to date is the reload obligation")
+    c.outside("determinism of the constructors themselves (file I/O of PhoneticMethod::new / FixedMethod::new / Data::new); a changed data directory")
